@@ -1,7 +1,7 @@
 (* C18 - extraction of the training models to OCaml (ExtrOcamlBasic only: N / Z / positive / nat stay Coq's types) *)
 From Coq Require Import NArith ZArith List.
 From Coq Require Import ExtrOcamlBasic.
-From ZV.Train Require Import CoverParams ZdictModel BestModel.
+From ZV.Train Require Import CoverParams ZdictModel BestModel SegmentModel GroupModel.
 Extraction Language OCaml.
 Extraction "Extract/out/c18model.ml"
   N.add N.mul N.div_eucl N.to_nat N.of_nat Z.of_N Z.opp
@@ -9,4 +9,6 @@ Extraction "Extract/out/c18model.ml"
   opt_grid grid_cover_jobs grid_fastcover_jobs opt_entry_cover opt_entry_fast
   compliant_id dict_id get_dict_id finalize_sizes finalize_bytes add_entropy_sizes add_entropy_precheck
   add_entropy_maxdst legacy_gate
-  best_init best_start best_finish apply_op run_sequential run_finishes indexed.
+  best_init best_start best_finish apply_op run_sequential run_finishes indexed
+  fc_train fc_select cv_build cv_select content_of key_fn map_init map_hash hint_loop hint_start dk1_of
+  cv_ctx lower_bound group_freq offsets_from.
